@@ -432,6 +432,8 @@ def run(ctx):
                 for y in why:
                     ctx.violation({'kind': 'history', 'why': y, 'last_op': hist[-1][0], 'ops': hist}, {})
             for hist, key in kids:
+                if len(hist) <= 2:
+                    key = repr(hist)       # short histories are never merged (exposes hidden implementation state)
                 if key not in seen:
                     seen[key] = hist
                     nxt.append(hist)
@@ -472,7 +474,7 @@ def run(ctx):
             'exhaustive': not capped, 'max_depth': depth, 'states_by_depth': states_by_depth,
             'frontier_at_bound': len(frontier), 'encoding_cases': n_enc, 'shelve_histories': shelf_n,
             'alphabet': {'users': users, 'sps': sps, 'name_qualifiers': nqs, 'formats': fmts},
-            'rule': 'BFS over operation histories on a fresh real IdentDB (every history replayed on implementation and reference); ops: transient/persistent/issue(find-then-construct)/construct(force-new)/remove_local/remove_remote/manage(new|terminate)/map(allow_create) over identifiers issued so far + one never-issued; states merged by canonical key (db content and reference under renaming of opaque identifier texts, per-user storage order kept); after every step every live/withdrawn/never-issued identifier and every user listing is compared with the reference.  Encoding table: code/decode over all NameIDs with fields from strings of length <= %d over %r' % (1 if not ctx.thorough else 2, ALPH),
+            'rule': 'BFS over operation histories on a fresh real IdentDB (every history replayed on implementation and reference); ops: transient/persistent/issue(find-then-construct)/construct(force-new)/remove_local/remove_remote/manage(new|terminate)/map(allow_create) over identifiers issued so far + one never-issued; states merged, from depth 3 on, by canonical key (db content and reference under renaming of opaque identifier texts, per-user storage order kept); after every step every live/withdrawn/never-issued identifier and every user listing is compared with the reference.  Encoding table: code/decode over all NameIDs with fields from strings of length <= %d over %r' % (1 if not ctx.thorough else 2, ALPH),
         },
         'assumptions': ['identifier texts are opaque to IdentDB (justifies canonical renaming)', 'deterministic id source (vp/env.py) replaces random.SystemRandom',
                         'user ids u1/u2 never collide with identifier texts (the shared key space is only reachable with adversarial user ids)'],
